@@ -24,7 +24,7 @@ __all__ = ['Float', 'Float10', 'Integer', 'Int', 'Long',
 class Float(float, AnyAtomicType):
     name = 'float'
     pattern = LazyPattern(
-        r'^(?:[+-]?(?:[0-9]+(?:\.[0-9]*)?|\.[0-9]+)(?:[Ee][+-]?[0-9]+)? |[+-]?INF|NaN)$'
+        r'^(?:[+-]?(?:[0-9]+(?:\.[0-9]*)?|\.[0-9]+)(?:[Ee][+-]?[0-9]+)?|[+-]?INF|NaN)$'
     )
 
     @classmethod
